@@ -58,6 +58,8 @@ def c01(ctx):
     q = ctx.quick()
     ctx.model(MC, "MC_Sched_C01.cfg")
     ctx.sim("loop", 400 if q else 10000, LOOP, "MonLoop_C01.cfg", nontrivial=has_genuine, conf=CONF)
+    # outcomes and totals around send failures (failed / skipped / re-issued probes; failing socket operations take time)
+    ctx.sim("fault", 200 if q else 4000, LOOP, "MonLoop_C01.cfg", seed_off=1, nontrivial=has_fault, conf=CONF)
     ctx.write_evidence("model_checking", MODEL_RULE + "distinct (family, cell, shape) of scenarios with >= 1 genuine response", assumptions=LOOP_ASSUME)
 
 
